@@ -17,7 +17,8 @@ MANIFEST = dict(
          "the REAL controllers (numWorkers=0, real handlers on real shared informers, events through the simulated watch; "
          "hand-made tombstones / resync replays by calling the registered handler functions; real tombstones through a watch gap "
          "+ relist), the drained work queue is logged and TLC evaluates the SAME Must/MustNot operators on the log "
-         "(spec/TraceTriggers.tla: C14_Complete, C14_Sound, C14_KeyParses; Drift_C14 compares with the code model).",
+         "(spec/TraceTriggers.tla: C14_Complete, C14_Sound, C14_KeyParses; Drift_C14 compares with the code model)."
+         " Variants: a failing customize call for a not-yet-synced parent generation while another parent's answer is cached; owner references written under another served version of the parent's group.",
     ref="DESIGN.md §8 C14",
     tech="TLA+ decision tables (statement vs code) checked by TLC + TLC behaviour enumeration / simulation replayed on real code + "
          "TLC trace validation")
